@@ -59,6 +59,9 @@ theorem subst_entry_named (d : Decl) (idx : List Nat) (hne : d.dims ≠ []) (h :
   rw [getD_map_range _ _ _ _ hr]
   simp [unravel_ravel _ _ h]
 
+example : exW.dims ≠ [] ∧ InRange exW.dims [1, 0] ∧ exW.scalar [1, 0] = ['w', '[', '2', ',', '1', ']'] ∧
+    elemPos exW.dims [1, 0] = 1 := ⟨by decide, by simp [exW, Decl.dims, iterShape, InRange], by decide, by decide⟩
+
 /-! ## Names -/
 
 /-- Within one variable the name determines the index tuple (no two scalars share a name). -/
@@ -69,6 +72,8 @@ theorem names_injective (d : Decl) (hp : d.parts.length = d.ms.length) (i1 i2 : 
   have h' := List.append_cancel_left h
   have hn := need_zip d.parts d.ms hp
   exact (dotJoin_nameLevels_inj _ i1 i2 _ _ (by rw [hn]; exact h1) (by rw [hn]; exact h2) h').1
+
+example : exW.parts.length = exW.ms.length ∧ exW.scalar [0, 1] ≠ exW.scalar [1, 0] := by decide
 
 /-- Stripping the bracket groups of a scalar's name gives back the variable's name. -/
 theorem name_strips_to_variable (d : Decl) (hp : d.parts.length = d.ms.length)
@@ -81,6 +86,9 @@ theorem name_strips_to_variable (d : Decl) (hp : d.parts.length = d.ms.length)
   rw [unbr_append_noBr _ _ hpre, unbr_dotJoin_nameLevels, map_fst_zip _ _ hp, hpo]
   · intro pl m
     exact hparts pl.1 (List.of_mem_zip m).1
+
+example : NoBr exW.pre ∧ NoBr exW.post ∧ (∀ p ∈ exW.parts, NoBr p) ∧
+    unbr false (exW.scalar [1, 1]) = ['w'] := ⟨by simp [NoBr, exW], by simp [NoBr, exW], by simp [NoBr, exW], by decide⟩
 
 /-- Scalars of different variables have different names (the variables' names contain no `[`). -/
 theorem names_injective_across (d1 d2 : Decl) (hp1 : d1.parts.length = d1.ms.length)
@@ -161,6 +169,8 @@ theorem attr_element_dm (lead : List Nat) (r c i j : Nat) (hi : i < r) (hj : j <
     selDM (lead ++ [r, c]) r c (lead.map (fun _ => 0) ++ [i, j]) = .ok (i + j * r) := by
   simp [selDM, selDMFull, hi, hj]
 
+example : selDM [3, 2] 3 2 [2, 1] = .ok 5 ∧ selDM [4, 3] 3 1 [2, 1] = .ok 1 := ⟨rfl, rfl⟩
+
 /-! ## Outputs and delay states -/
 
 /-- An output that is an array variable is replaced, in place, by the variable's scalars in
@@ -170,6 +180,8 @@ theorem outputs_renamed (l1 l2 : List (List Char)) (name : List Char) (new : Lis
     (∀ xs, name ∉ xs → splice xs name new = xs) :=
   ⟨splice_at l1 l2 name new h, fun xs hx => splice_absent xs name new hx⟩
 
+example : splice [['y'], ['w'], ['z']] ['w'] [['a'], ['b']] = [['y'], ['a'], ['b'], ['z']] := by decide
+
 /-- A delay state that is expanded is removed and its scalars (all dimensions indexed) are appended. -/
 theorem delay_renamed (xs : List (List Char)) (name : List Char) (shape : List Nat) (h : name ∈ xs) :
     delayMove xs name (expandDelayNames name shape) = xs.erase name ++ (ndindex shape).map (fun idx => name ++ idxText idx) ∧
@@ -177,19 +189,10 @@ theorem delay_renamed (xs : List (List Char)) (name : List Char) (shape : List N
   refine ⟨by simp [delayMove, h, expandDelayNames], fun ys hy => by simp [delayMove, hy]⟩
 
 
-/-! ## The residual under the renaming -/
+example : delayMove [['d'], ['e']] ['d'] (expandDelayNames ['d'] [2, 1])
+    = [['e'], ['d', '[', '1', ',', '1', ']'], ['d', '[', '2', ',', '1', ']']] := by decide
 
-/-- expressions of the unexpanded model: every symbol is declared, no packed scalars yet -/
-def Closed (ds : List Decl) : Expr → Prop
-  | .var n => ∃ d ∈ ds, d.name = n
-  | .pack _ _ _ => False
-  | .el e _ => Closed ds e
-  | .const _ => True
-  | .add a b => Closed ds a ∧ Closed ds b
-  | .sub a b => Closed ds a ∧ Closed ds b
-  | .emul a b => Closed ds a ∧ Closed ds b
-  | .smul _ a => Closed ds a
-  | .neg a => Closed ds a
+/-! ## The residual under the renaming -/
 
 /-- Substituting `reshape(vertcat(scalars), reversed(shape)).T` for every array symbol and
     evaluating at the renamed point gives the value of the original expression. -/
@@ -214,6 +217,8 @@ theorem eval_renamed (ds : List Decl) (env : Env) (hwf : WF ds env) (e : Expr) (
   | smul k a ih => simp only [expandE, eval, ih hc]
   | neg a ih => simp only [expandE, eval, ih hc]
 
+example : eval (renameEnv exDecls exEnv) (expandE (tableOf exDecls) exEq) = some ⟨2, 2, [-4, 4, -1, 11]⟩ := by decide
+
 /-- **The expanded residual equals the unexpanded residual under the renaming**: for well-formed
     declarations (distinct names without brackets, one nesting level per name component) and a
     point giving every symbol a matrix of its shape, the entries of the expanded equations
@@ -235,34 +240,11 @@ theorem renamed_point (ds : List Decl) (env : Env) (hwf : WF ds env) (d : Decl) 
     renameEnv ds env (d.scalar idx) = some ⟨1, 1, [m.data.getD (elemPos d.dims idx) 0]⟩ :=
   renameEnv_elem ds env hwf d hd hdim m hm idx ((ndindex_rowmajor d.dims idx).2.2.2 hi)
 
--- non-vacuity: `Real w[2,2]; Real z;` with `w = [[1,2],[3,4]]` (stored 1,3,2,4), `z = 5`, equation `w .* w - z`
-def exDecls : List Decl := [⟨['w'], [], [['w']], [], [some [2, 2]]⟩, ⟨['z'], [], [['z']], [], [none]⟩]
-def exEnv : Env := fun n =>
-  if n = ['w'] then some ⟨2, 2, [1, 3, 2, 4]⟩ else if n = ['z'] then some ⟨1, 1, [5]⟩ else none
+-- `Real w[2,2]; Real z;`, `w = [[1,2],[3,4]]`, `z = 5`, equation `w .* w - z`: entries (1,1), (2,1), (1,2), (2,2)
+example : WF exDecls exEnv ∧ Closed exDecls exEq ∧
+    residual (renameEnv exDecls exEnv) [expandE (tableOf exDecls) exEq] = some [-4, 4, -1, 11] :=
+  ⟨exWF, exClosed, by decide⟩
 
-example : WF exDecls exEnv ∧ Closed exDecls (.sub (.emul (.var ['w']) (.var ['w'])) (.var ['z'])) ∧
-    residual (renameEnv exDecls exEnv)
-      [expandE (tableOf exDecls) (.sub (.emul (.var ['w']) (.var ['w'])) (.var ['z']))] = some [-4, 4, -1, 11] := by
-  refine ⟨⟨?_, ?_, ?_, ?_, ?_⟩, ?_, by decide⟩
-  · intro d1 h1 d2 h2 e
-    simp only [exDecls, List.mem_cons, List.mem_nil_iff, or_false] at h1 h2
-    rcases h1 with rfl | rfl <;> rcases h2 with rfl | rfl <;> simp_all
-  · intro d h
-    simp only [exDecls, List.mem_cons, List.mem_nil_iff, or_false] at h
-    rcases h with rfl | rfl <;> rfl
-  · intro d h
-    simp only [exDecls, List.mem_cons, List.mem_nil_iff, or_false] at h
-    rcases h with rfl | rfl <;> rfl
-  · intro d h
-    simp only [exDecls, List.mem_cons, List.mem_nil_iff, or_false] at h
-    rcases h with rfl | rfl <;> simp [NoBr]
-  · intro d h
-    simp only [exDecls, List.mem_cons, List.mem_nil_iff, or_false] at h
-    rcases h with rfl | rfl
-    · exact ⟨⟨2, 2, [1, 3, 2, 4]⟩, by decide, by decide, by decide, by decide⟩
-    · exact ⟨⟨1, 1, [5]⟩, by decide, by decide, by decide, by decide⟩
-  · have hw : (⟨['w'], [], [['w']], [], [some [2, 2]]⟩ : Decl) ∈ exDecls := by simp [exDecls]
-    have hz : (⟨['z'], [], [['z']], [], [none]⟩ : Decl) ∈ exDecls := by simp [exDecls]
-    exact ⟨⟨⟨_, hw, rfl⟩, ⟨_, hw, rfl⟩⟩, ⟨_, hz, rfl⟩⟩
+example : renameEnv exDecls exEnv (exW.scalar [0, 1]) = some ⟨1, 1, [2]⟩ := by decide
 
 end PymocaVerif.VecExpand
